@@ -849,6 +849,9 @@ def _gen_enum_pkg(rng, name, profile, max_hb, allow_gorm):
 
     def args_of(fl):
         return ["-" + f for f in ("bit", "json", "text", "sql", "gorm") if fl.get(f)]
+    # types that shoot generates in this plan although they are no targets (the untargeted type of a
+    # joint / -type=* / -file run): their output exists and carries its own stale guard
+    spec.extra_generated = []
     if mode in ("star", "file") and profile == "c14" and len(bit_types) != len(spec.types):
         mode = "explicit"      # uniform flags would put -bit on a non-flag enum: keep those out
     if mode == "explicit" or len(spec.types) == 1 and mode == "joint":
@@ -863,9 +866,10 @@ def _gen_enum_pkg(rng, name, profile, max_hb, allow_gorm):
             fl["bit"] = False
         for T in with_consts:
             spec.targets.append(Target(T, spec.kind_of(T), fl, T in bit_types))
-        order = [T for T, _ in spec.types]          # includes types without constants: silently skipped
+        order = [T for T, _ in spec.types]
         rng.shuffle(order)
         spec.runs.append((["enum"] + args_of(fl) + ["-type=" + ",".join(order)], with_consts))
+        spec.extra_generated += [(U, fl) for U in sorted(spec.untargeted)]
         spec.features.add("run-joint")
     elif mode == "star":
         fl = flags_for(with_consts[0])
@@ -876,6 +880,7 @@ def _gen_enum_pkg(rng, name, profile, max_hb, allow_gorm):
         args = ["enum"] + args_of(fl) + ["-type=*"]
         rng.choice(spec.files).items.insert(0, ("comment", "//go:generate shoot " + " ".join(args)))
         spec.runs.append((args, with_consts))
+        spec.extra_generated += [(U, fl) for U in sorted(spec.untargeted)]
         spec.features.add("run-star")
     else:
         # one run per file that declares types
@@ -892,6 +897,7 @@ def _gen_enum_pkg(rng, name, profile, max_hb, allow_gorm):
             for T in cs:
                 spec.targets.append(Target(T, spec.kind_of(T), fl, T in bit_types))
             spec.runs.append((["enum"] + args_of(fl) + ["-file=" + f.name], cs))
+            spec.extra_generated += [(U, fl) for U in ts if U in spec.untargeted]
         spec.features.add("run-file")
     if not spec.targets:
         raise EvalError("no targets")
